@@ -20,8 +20,12 @@ type Bounds struct {
 	ConcatOps  int
 }
 
-func QuickBounds() Bounds    { return Bounds{UnaryRank: 3, BinaryRank: 2, IndexRank: 2, ConcatRank: 2, ConcatOps: 3} }
-func ThoroughBounds() Bounds { return Bounds{UnaryRank: 5, BinaryRank: 3, IndexRank: 3, ConcatRank: 3, ConcatOps: 3} }
+func QuickBounds() Bounds {
+	return Bounds{UnaryRank: 3, BinaryRank: 2, IndexRank: 2, ConcatRank: 2, ConcatOps: 3}
+}
+func ThoroughBounds() Bounds {
+	return Bounds{UnaryRank: 5, BinaryRank: 3, IndexRank: 3, ConcatRank: 3, ConcatOps: 3}
+}
 
 // patterns enumerates every assignment of {1, atom} to `rank` dimensions; atoms are prefix0, prefix1, ….
 func patterns(prefix string, rank int) [][]sym.Poly {
